@@ -619,6 +619,11 @@ func (n node) compact(lo uint64) int {
 			// Skip over this key. Don't copy it.
 			continue
 		}
+		if n.val(right) < lo {
+			// This is the max key: it is kept as a placeholder for the parent's pointer,
+			// but its value is below lo and must not remain visible.
+			n.setAt(valOffset(right), 0)
+		}
 		// Valid data. Copy it from right to left. Advance left.
 		if left != right {
 			copy(n.data(left), n.data(right))
